@@ -1291,6 +1291,36 @@ theorem rowDistB_sound (slack : Rat) (row : List XRat) (h : rowDistB slack row =
         rw [← hq]
         split_ifs at hsum with hneg <;> simp only [decide_eq_true_eq] at hsum <;> constructor <;> linarith
 
+/-! ## CooperativeModel constructor -/
+
+/-- whatever `Factored::MDP::CooperativeModel(graph, transitions, rewards, discount)` accepts is well formed: non-empty
+    spaces, one parent set and one transition matrix per state feature with the shape the graph dictates, every
+    transition row a strict distribution, every reward basis with well-formed tags and the matching shape — and, when
+    the constructor checks it (`chk`, read from the source; true after fix C06-3), a discount in (0,1]. -/
+theorem coop_accepted_wellformed (chk : Bool) (g : Graph) (mats : List Mat) (bases : List Basis) (d : XRat)
+    (h : coopAccepts chk g mats bases d = true) :
+    g.S.length ≠ 0 ∧ g.A.length ≠ 0 ∧ g.parents.length = g.S.length ∧ mats.length = g.S.length ∧
+    (∀ i < g.S.length, (mats.getD i default).rows = g.sizes.getD i 0 ∧ (mats.getD i default).cols = g.S.getD i 0 ∧
+        ∀ j < (mats.getD i default).rows,
+          RowS ((List.range (mats.getD i default).cols).map (fun x => get2 (mats.getD i default).ent j x))) ∧
+    (∀ b ∈ bases, checkTag g.A b.actionTag = .none ∧ checkTag g.S b.tag = .none ∧
+        b.cols = spacePartial g.A b.actionTag ∧ b.rows = spacePartial g.S b.tag) ∧
+    (chk = true → d ≠ .nan → DiscOK d) := by
+  simp only [coopAccepts, Bool.and_eq_true, Bool.not_eq_true', bne_iff_ne, ne_eq, beq_iff_eq,
+    List.all_eq_true, List.mem_range] at h
+  obtain ⟨⟨⟨⟨⟨⟨hd, hS⟩, hA⟩, hP⟩, hM⟩, hT⟩, hB⟩ := h
+  refine ⟨hS, hA, hP, hM, ?_, ?_, ?_⟩
+  · intro i hi
+    obtain ⟨⟨h1, h2⟩, h3⟩ := hT i hi
+    exact ⟨h1, h2, fun j hj => (isProbLoop_iff _).1 (h3 j hj)⟩
+  · intro b hb
+    obtain ⟨⟨⟨h1, h2⟩, h3⟩, h4⟩ := hB b hb
+    exact ⟨h1, h2, h3, h4⟩
+  · intro hc hnan
+    subst hc
+    simp only [Bool.true_and] at hd
+    exact discountOKfinite_sound _ (discGuard_ok .dense).1 d hnan hd
+
 /-! ## OBLIGATIONS over the generated order facts (re-opened by any reordering in the source) -/
 
 /-- in every setter of the four model classes, every `throw` precedes the first write -/
